@@ -176,7 +176,7 @@ func c06Corpus() []c06In {
 func c06Random(r *rand.Rand, heavyKeys bool) c06In {
 	n := 1 + r.Intn(3)
 	kt := []string{"p256", "p256", "ed25519", "p384"}[r.Intn(4)]
-	if heavyKeys && r.Intn(12) == 0 {
+	if heavyKeys && r.Intn(45) == 0 {
 		kt = "rsa2048"
 	}
 	in := c06In{Cfg: bCfg{N: n, Reuse: r.Intn(2) == 0, Rnd: r.Intn(4) == 0, KeyType: kt}, Subj: bSubjects[r.Intn(len(bSubjects))]}
